@@ -539,4 +539,273 @@ theorem export_of_quic_session (mask : Quic.Dissect.MaskFn) (H : Crypto.Prims) (
 
 end Glue
 
+theorem lookup_infosFrom (cap : List CapEv) (n i : Nat) (e : CapEv) (h : cap[i]? = some e) :
+    Ingest.lookup (infosFrom n cap) (n + i) = infoOf e.us e.d := by
+  induction cap generalizing n i with
+  | nil => cases h
+  | cons c rest ih =>
+    cases i with
+    | zero =>
+      simp only [List.getElem?_cons_zero, Option.some.injEq] at h
+      subst h
+      rw [infosFrom]; simp only [Nat.add_zero]; rw [Lemmas.Export.lookup_cons_eq]
+    | succ j =>
+      simp only [List.getElem?_cons_succ] at h
+      rw [infosFrom, Lemmas.Export.lookup_cons_ne _ _ _ _ (by omega)]
+      have := ih (n + 1) j h
+      rw [show n + 1 + j = n + (j + 1) by omega] at this
+      exact this
+
+theorem capInfo_at (cap : List CapEv) (i : Nat) (e : CapEv) (h : cap[i]? = some e) :
+    capInfo cap i = infoOf e.us e.d := by
+  have := lookup_infosFrom cap 0 i e h
+  rw [Nat.zero_add] at this
+  exact this
+
+theorem hsItems_mem (fl : Flow) (kl : List Keylog.Key) (evs : List QEv) (n : Nat)
+    (x : List Keylog.Key × MainLoop.Pkt × DgH) (hx : x ∈ hsItems fl kl n evs) :
+    ∃ i t fr u, evs[i]? = some (.hs t fr u x.2.2) ∧ x = (kl, dgPkt fl x.2.2.srv u.payload (n + i), x.2.2) := by
+  induction evs generalizing n with
+  | nil => cases hx
+  | cons ev rest ih =>
+    cases ev with
+    | hs t fr u d =>
+      simp only [hsItems, List.mem_cons] at hx
+      rcases hx with rfl | hx
+      · exact ⟨0, t, fr, u, rfl, rfl⟩
+      · obtain ⟨i, t', fr', u', h1, h2⟩ := ih (n + 1) hx
+        exact ⟨i + 1, t', fr', u', by simpa using h1, by rw [h2, show n + 1 + i = n + (i + 1) by omega]⟩
+    | one t fr u d =>
+      simp only [hsItems] at hx
+      obtain ⟨i, t', fr', u', h1, h2⟩ := ih (n + 1) hx
+      exact ⟨i + 1, t', fr', u', by simpa using h1, by rw [h2, show n + 1 + i = n + (i + 1) by omega]⟩
+    | foreign e =>
+      simp only [hsItems] at hx
+      obtain ⟨i, t', fr', u', h1, h2⟩ := ih (n + 1) hx
+      exact ⟨i + 1, t', fr', u', by simpa using h1, by rw [h2, show n + 1 + i = n + (i + 1) by omega]⟩
+
+theorem oneItems_mem (fl : Flow) (evs : List QEv) (n : Nat) (x : MainLoop.Pkt × Dg1) (hx : x ∈ oneItems fl n evs) :
+    ∃ i t fr u, evs[i]? = some (.one t fr u x.2) ∧ x = (dgPkt fl x.2.x.srv u.payload (n + i), x.2) := by
+  induction evs generalizing n with
+  | nil => cases hx
+  | cons ev rest ih =>
+    cases ev with
+    | one t fr u d =>
+      simp only [oneItems, List.mem_cons] at hx
+      rcases hx with rfl | hx
+      · exact ⟨0, t, fr, u, rfl, rfl⟩
+      · obtain ⟨i, t', fr', u', h1, h2⟩ := ih (n + 1) hx
+        exact ⟨i + 1, t', fr', u', by simpa using h1, by rw [h2, show n + 1 + i = n + (i + 1) by omega]⟩
+    | hs t fr u d =>
+      simp only [oneItems] at hx
+      obtain ⟨i, t', fr', u', h1, h2⟩ := ih (n + 1) hx
+      exact ⟨i + 1, t', fr', u', by simpa using h1, by rw [h2, show n + 1 + i = n + (i + 1) by omega]⟩
+    | foreign e =>
+      simp only [oneItems] at hx
+      obtain ⟨i, t', fr', u', h1, h2⟩ := ih (n + 1) hx
+      exact ⟨i + 1, t', fr', u', by simpa using h1, by rw [h2, show n + 1 + i = n + (i + 1) by omega]⟩
+
+theorem dgPkt_src_client (fl : Flow) (hne : clientEp fl ≠ serverEp fl) (srv : Bool) (pl : Bytes) (tag : Nat) :
+    ((dgPkt fl srv pl tag).src == clientEp fl) = !srv := by
+  cases srv
+  · simp [dgPkt]
+  · simp only [dgPkt, if_true, Bool.not_true, beq_eq_false_iff_ne, ne_eq]
+    exact fun h => hne h.symm
+
+theorem dgPkt_matches {α : Type} (fl : Flow) (s : Sess α) (hs : s.server = serverEp fl) (hc : s.client = clientEp fl)
+    (srv : Bool) (pl : Bytes) (tag : Nat) : s.matches (dgPkt fl srv pl tag) = true := by
+  cases srv <;> simp [Sess.matches, dgPkt, hs, hc]
+
+/-- the handshake datagrams of a described capture are carried by the `Packet` objects the read loop makes of them -/
+theorem carriesH_of_described (fl : Flow) (hne : clientEp fl ≠ serverEp fl) (wH : DgH → Bytes) (w1 : Dg1 → Bytes)
+    (o : Opts) (kl : List Keylog.Key) (evs : List QEv) (hd : QDescribed fl wH w1 o evs) (full : List CapEv) (off : Nat)
+    (hfull : ∀ i ev, evs[i]? = some ev → full[off + i]? = some ev.cap)
+    (c : QConn) (hc : c.client = clientEp fl) :
+    ∀ x ∈ hsItems fl kl off evs, x.1 = kl ∧ CarriesH (capInfo full) c wH x.2.1 x.2.2 ∧
+      x.2.1 = dgPkt fl x.2.2.srv (wH x.2.2) x.2.1.tag := by
+  intro x hx
+  obtain ⟨i, t, fr, u, hi, hxe⟩ := hsItems_mem fl kl evs off x hx
+  have hmem : QEv.hs t fr u x.2.2 ∈ evs := List.mem_of_getElem? hi
+  obtain ⟨hdg, hpay, hts, _⟩ := hd _ hmem
+  have hinfo := capInfo_at full (off + i) _ (hfull i _ hi)
+  simp only [QEv.cap] at hinfo
+  have hx1 : x.2.1 = dgPkt fl x.2.2.srv u.payload (off + i) := by rw [hxe]
+  refine ⟨by rw [hxe], ⟨by rw [hx1]; exact hpay, ?_, ?_⟩, by rw [hx1, hpay]; rfl⟩
+  · rw [hx1]
+    show (capInfo full (off + i)).ts = _
+    rw [hinfo, infoOf_dg fl _ fr u hdg]
+    exact hts.symm
+  · rw [hx1, hc]; exact dgPkt_src_client fl hne _ _ _
+
+theorem carries_of_described (fl : Flow) (hne : clientEp fl ≠ serverEp fl) (wH : DgH → Bytes) (w1 : Dg1 → Bytes)
+    (o : Opts) (evs : List QEv) (hd : QDescribed fl wH w1 o evs) (full : List CapEv) (off : Nat)
+    (hfull : ∀ i ev, evs[i]? = some ev → full[off + i]? = some ev.cap)
+    (c : QConn) (hc : c.client = clientEp fl) :
+    ∀ x ∈ oneItems fl off evs, Carries (capInfo full) c w1 x.1 x.2 ∧ x.1 = dgPkt fl x.2.x.srv (w1 x.2) x.1.tag := by
+  intro x hx
+  obtain ⟨i, t, fr, u, hi, hxe⟩ := oneItems_mem fl evs off x hx
+  have hmem : QEv.one t fr u x.2 ∈ evs := List.mem_of_getElem? hi
+  obtain ⟨hdg, hpay, hts, _⟩ := hd _ hmem
+  have hinfo := capInfo_at full (off + i) _ (hfull i _ hi)
+  simp only [QEv.cap] at hinfo
+  have hx1 : x.1 = dgPkt fl x.2.x.srv u.payload (off + i) := by rw [hxe]
+  refine ⟨⟨by rw [hx1]; exact hpay, ?_, ?_⟩, by rw [hx1, hpay]; rfl⟩
+  · rw [hx1]
+    show (capInfo full (off + i)).ts = _
+    rw [hinfo, infoOf_dg fl _ fr u hdg]
+    exact hts.symm
+  · rw [hx1, hc]; exact dgPkt_src_client fl hne _ _ _
+
+theorem quicRun_append {κ τ ο : Type} (M : QuicMachine κ τ ο) (o : Opts) (ss : List (QuicSess τ)) (a b : List (QIn κ)) :
+    quicRun M o ss (a ++ b) = quicRun M o (quicRun M o ss a) b := by
+  simp [quicRun, List.foldl_append]
+
+section Final
+open TLX.Export TLX.Quic.Session TLX.Cipher TLX.Props.C02Session TLX.Spec.KeySchedules
+variable (maskFn : Quic.Dissect.MaskFn) (H : Crypto.Prims) (Pc : Cipher.Prims)
+
+/-- **C02 FROM FILE TO FILE.** -/
+theorem quic_capture_exact (hl : H.Lawful) (h32 : H.sha256.outLen = 32) (L : SealLaws Pc)
+    -- the files and the options
+    (args : Args) (legacy : Bool) (keyFile : Option Keylog.Str) (file : Bytes) (evsH evsO : List QEv)
+    (hread : Container.read legacy file = .ok (((evsH ++ evsO).map QEv.cap).map CapEv.item))
+    (htime : ∀ e ∈ (evsH ++ evsO).map QEv.cap, Ingest.isMinusOne e.t = false)
+    (hnoc : args.checksumTest = false) (hmeta : args.metadata = false)
+    (pm : List (Int × Int)) (ports : List Int)
+    (hpm : Options.getPortMap Options.Src.bare args.mArg = .ok pm)
+    (hports : Options.serverPorts Options.Src.builtin Options.Src.pDefault args.pArg = .ok ports)
+    -- the flow
+    (fl : Flow) (hne : clientEp fl ≠ serverEp fl) (hcp : ports.contains (fl.clientPort : Int) = false)
+    -- the connection as sent (hypotheses of `quic_connection_exact_conformant`; key log = the key-log file)
+    (hs : ConfHs) (hsok : hs.Ok) (ch sh ca sa : Bytes) (early : Option Bytes) (sel : SuiteSel)
+    (hsel : selectSuite hs.sh.cipherSuite = some sel)
+    (ho : (hashOf H sel.hash).outLen < 65536)
+    (hsa : sa.length = (hashOf H sel.hash).outLen) (hca : ca.length = (hashOf H sel.hash).outLen)
+    (hkl : KeylogHas ((fileKeysOf keyFile).getD []) hs.ch.random ch sh ca sa early)
+    -- the capture of the connection: handshake datagrams (`evsH`), then 1-RTT datagrams (`evsO`), foreign packets anywhere
+    (kl0 : List Keylog.Key) (p0 : MainLoop.Pkt) (d0 : DgH) (items : List (List Keylog.Key × MainLoop.Pkt × DgH))
+    (hfirst : hsItems fl ((fileKeysOf keyFile).getD []) 0 evsH = (kl0, p0, d0) :: items) (hd0 : d0.srv = false)
+    (hdesc : QDescribed fl (dgWire H Pc L (dgDcid d0) sel sh ch)
+      (wireOf H Pc L sel .v1 (rfcGen (hashOf H sel.hash) sel.keyLen sa ca 0)) (optsOf args ports pm) (evsH ++ evsO))
+    (hphH : ∀ ev ∈ evsH, noOne ev = true) (hphO : ∀ ev ∈ evsO, noHs ev = true)
+    (hok : HsDgs maskFn H Pc L (dgDcid d0) sel sh ch trk0 (d0 :: items.map (·.2.2)))
+    (hins : allIns (d0 :: items.map (·.2.2)) = hs.ins)
+    (hkeyed : (trk0.runDgs (d0 :: items.map (·.2.2))).keyed = true)
+    (hsend : Send1 maskFn H Pc L sel .v1 (rfcGen (hashOf H sel.hash) sel.keyLen sa ca 0)
+      (quicHp (hashOf H sel.hash) ca sel.keyLen) (quicHp (hashOf H sel.hash) sa sel.keyLen)
+      (chachaOf (trk0.runDgs (d0 :: items.map (·.2.2))).core) 0 0
+      (trk0.runDgs (d0 :: items.map (·.2.2))).tc.app (trk0.runDgs (d0 :: items.map (·.2.2))).ts.app
+      (trk0.runDgs (d0 :: items.map (·.2.2))).cc (trk0.runDgs (d0 :: items.map (·.2.2))).sc
+      ((oneItems fl evsH.length evsO).map (·.2)))
+    (hroute : Routes1 (wireOf H Pc L sel .v1 (rfcGen (hashOf H sel.hash) sel.keyLen sa ca 0))
+      (trk0.runDgs (d0 :: items.map (·.2.2))).cc (trk0.runDgs (d0 :: items.map (·.2.2))).sc
+      ((oneItems fl evsH.length evsO).map (·.2)))
+    (htimes : (((oneItems fl evsH.length evsO).map (·.2)).map fun d => (d.x.ts, d.x.srv)).Pairwise (· ≠ ·)) :
+    (∃ e, exportFile maskFn H Pc args legacy keyFile file = .abort (.write e)) ∨
+    ∃ f, exportFile maskFn H Pc args legacy keyFile file = .file f ∧
+      ReadsBack f (expectedOut
+        ((quicMachine maskFn H Pc (capInfo ((evsH ++ evsO).map QEv.cap))).new (optsOf args ports pm) p0)
+        ((oneItems fl evsH.length evsO).map (·.2))) := by
+  -- names
+  generalize hcapdef : (evsH ++ evsO).map QEv.cap = cap at *
+  generalize hkeys : (fileKeysOf keyFile).getD [] = keys at *
+  generalize hodef : optsOf args ports pm = o at *
+  have hoc : o.checksumTest = false := by rw [← hodef]; exact hnoc
+  have hop : o.ports = ports := by rw [← hodef]; rfl
+  let QM := quicMachine maskFn H Pc (capInfo cap)
+  let wH := dgWire H Pc L (dgDcid d0) sel sh ch
+  let w1 := wireOf H Pc L sel .v1 (rfcGen (hashOf H sel.hash) sel.keyLen sa ca 0)
+  have hcapOk : CapOk cap := by
+    rw [← hcapdef]; exact capOk_of_qdescribed fl wH w1 o _ hdesc (by rw [hcapdef]; exact htime)
+  have hdH : QDescribed fl wH w1 o evsH := fun ev he => hdesc ev (List.mem_append_left _ he)
+  have hdO : QDescribed fl wH w1 o evsO := fun ev he => hdesc ev (List.mem_append_right _ he)
+  have hfullH : ∀ i ev, evsH[i]? = some ev → cap[0 + i]? = some ev.cap := by
+    intro i ev h
+    rw [← hcapdef, Nat.zero_add, List.getElem?_map, List.getElem?_append_left (List.getElem?_eq_some_iff.mp h).1, h]; rfl
+  have hfullO : ∀ i ev, evsO[i]? = some ev → cap[evsH.length + i]? = some ev.cap := by
+    intro i ev h
+    rw [← hcapdef, List.getElem?_map, List.getElem?_append_right (by omega), Nat.add_sub_cancel_left, h]; rfl
+  -- the first datagram creates the session
+  have hp0mem : (kl0, p0, d0) ∈ hsItems fl keys 0 evsH := by rw [hfirst]; simp
+  let c0 := QM.new o p0
+  have hc0cl : c0.client = clientEp fl ∧ (rolesOf o.ports p0) = (serverEp fl, clientEp fl) := by
+    obtain ⟨_, _, hp⟩ := carriesH_of_described fl hne wH w1 o keys evsH hdH cap 0 hfullH
+      { c0 with client := clientEp fl } rfl _ hp0mem
+    simp only at hp
+    have hr : rolesOf o.ports p0 = (serverEp fl, clientEp fl) := by
+      have hc' : ¬ (fl.clientPort : Int) ∈ ports := by simpa using hcp
+      rw [hp, hd0, hop]
+      simp [rolesOf, dgPkt, clientEp, hc']
+    exact ⟨congrArg Prod.snd hr, hr⟩
+  obtain ⟨hc0c, hroles⟩ := hc0cl
+  -- the QUIC view of the capture and the run over its handshake part
+  have hview : quicView o keys (itemsFrom 0 cap) =
+      ((kl0, p0, d0) :: items).map (fun x => (⟨x.1, .long (dgDcid x.2.2) .v1, x.2.1⟩ : QIn Keylog.Key)) ++
+      (oneItems fl evsH.length evsO).map (fun x => (⟨keys, .short, x.1⟩ : QIn Keylog.Key)) := by
+    rw [← hcapdef, List.map_append, itemsFrom_append, quicView_append,
+      quicView_hsPhase fl wH w1 o hoc (hsHeader_dgWire H Pc L _ sel sh ch) keys evsH hdH hphH 0, hfirst,
+      List.length_map, Nat.zero_add,
+      quicView_onePhase fl wH w1 o hoc (oneHeader_wireOf H Pc L sel .v1 _) keys evsO hdO hphO evsH.length]
+  have hcarAll := carriesH_of_described fl hne wH w1 o keys evsH hdH cap 0 hfullH c0 hc0c
+  rw [hfirst] at hcarAll
+  have hkl0 : kl0 = keys := (hcarAll _ (List.mem_cons_self ..)).1
+  let s0 : QuicSess QConn := ⟨serverEp fl, clientEp fl, QM.feed c0 kl0 p0 (dgDcid d0) .v1⟩
+  have hrunH : quicRun QM o [] (((kl0, p0, d0) :: items).map
+      (fun x => (⟨x.1, .long (dgDcid x.2.2) .v1, x.2.1⟩ : QIn Keylog.Key))) =
+      [{ s0 with st := hsFeedAll QM c0 ((kl0, p0, d0) :: items) }] := by
+    simp only [List.map_cons, quicRun, List.foldl_cons]
+    rw [quicHandle_new]
+    have hnew : quicNew QM o kl0 (.long (dgDcid d0) .v1) p0 = s0 := by
+      simp only [quicNew, hroles, Hdr.dcid, Hdr.ver]; rfl
+    rw [hnew]
+    have := quicRun_hs maskFn H Pc (capInfo cap) o items s0 (by
+      intro x hx
+      obtain ⟨_, _, hp⟩ := hcarAll x (List.mem_cons_of_mem _ hx)
+      rw [hp]; exact dgPkt_matches fl s0 rfl rfl _ _ _)
+    simp only [quicRun] at this
+    rw [this]
+    rfl
+  -- the handshake establishes the 1-RTT state
+  obtain ⟨e1, e2, e3, e4, e5, e6, e7, e8, e9⟩ := quic_handshake_establishes maskFn H Pc (capInfo cap) hl h32 L hs.ch.random
+    hs.sh.cipherSuite ch sh ca sa early sel hsel kl0 p0 d0 items
+    (by intro x hx; rw [(hcarAll x hx).1]; exact hkl)
+    c0 (new_fresh maskFn H Pc (capInfo cap) o p0) hok (by rw [hins]; exact ptrace_of_conformant hs hsok)
+    (fun x hx => (hcarAll x hx).2.1) hkeyed keys
+  generalize hc1 : hsFeedAll QM c0 ((kl0, p0, d0) :: items) = c1 at *
+  have hc1c : c1.client = clientEp fl := by rw [show c1.client = c0.client from e6]; exact hc0c
+  -- the run over the 1-RTT part
+  have hcarO := carries_of_described fl hne wH w1 o evsO hdO cap evsH.length hfullO c1 hc1c
+  have hk := keysWf_rfc H hl Pc keys hs.sh.cipherSuite sel hsel .v1 ho sa ca hsa hca
+  have hrunO := quicRun_one maskFn H Pc (capInfo cap) o keys L sel .v1 _ _ _ _ hk (oneItems fl evsH.length evsO)
+    { s0 with st := c1 } 0 0 _ _ _ _ hc1c.symm e1 e2
+    (by
+      intro x hx
+      obtain ⟨_, hp⟩ := hcarO x hx
+      rw [hp]; exact dgPkt_matches fl _ rfl rfl _ _ _)
+    (fun x hx => (hcarO x hx).1) hsend hroute
+  have hrun : quicRun QM o [] (quicView o keys (itemsFrom 0 cap)) =
+      [{ s0 with st := C02Capstone.feedAll QM c1 ((oneItems fl evsH.length evsO).map fun x => (keys, x.1, x.2)) }] := by
+    rw [hview, quicRun_append, hrunH]
+    exact hrunO
+  -- the session's export
+  have hmap : ((oneItems fl evsH.length evsO).map fun x => (keys, x.1, x.2)).map (·.2.2) =
+      (oneItems fl evsH.length evsO).map (·.2) := by simp [List.map_map]
+  obtain ⟨r1, r2⟩ := quic_one_rtt_connection_exact maskFn H Pc (capInfo cap) keys L sel .v1 _ _ _ _ hk
+    ((oneItems fl evsH.length evsO).map fun x => (keys, x.1, x.2)) c1 0 0 _ _ _ _ e1 e2 e3
+    (by
+      intro x hx
+      obtain ⟨y, hy, rfl⟩ := List.mem_map.mp hx
+      exact (hcarO y hy).1)
+    (by rw [hmap]; exact hsend) (by rw [hmap]; exact htimes)
+  have hblk : QM.out args.metadata (C02Capstone.feedAll QM c1 ((oneItems fl evsH.length evsO).map fun x => (keys, x.1, x.2))) =
+      expectedOut c0 ((oneItems fl evsH.length evsO).map (·.2)) := by
+    rw [hmeta, r2, hmap]
+    unfold expectedOut
+    rw [addressed_congr c0 c1 e4 e5 e6 e7 e8 e9]
+  subst hodef
+  subst hkeys
+  exact export_of_quic_session maskFn H Pc args legacy keyFile file cap hread hcapOk hnoc pm ports hpm hports _ hrun _ hblk
+
+end Final
+
 end TLX.Props.C02File
